@@ -13,9 +13,9 @@ CONSTANTS
   PUB = {"unset"}
   FK = {"ok"}
   SF = {"S1"}
-  RCBS = {"B", "bad"}
+  RCBS = {"B", "bad", "badfirst"}
   RCAS = {"unset", "badonly"}
-  RCBD = {"B", "bad"}
+  RCBD = {"B", "bad", "badfirst"}
   RPBL = {"unset"}
   RGEO = {"unset"}
   RPUB = {"unset"}
